@@ -41,6 +41,15 @@ def _cleanup():
 atexit.register(_cleanup)
 
 
+_T0 = time.time()
+
+
+def log(msg):
+    if os.environ.get("VERIF_VERBOSE"):
+        sys.stderr.write("[%7.1fs] %s\n" % (time.time() - _T0, msg))
+        sys.stderr.flush()
+
+
 class MachineryError(Exception):
     """The checking machinery itself failed (exit code 2, never a violation)."""
 
@@ -162,14 +171,19 @@ def parse_tlc_output(text, res, keep_json=True):
 
 def run_tlc(workdir, module, cfg_text, workers=1, extra=(), timeout=3600, heap="3g",
             cfg_name=None, keep_json=True, env_extra=None, simulate=None, gcthreads=2,
-            stdout_path=None):
+            stdout_path=None, fastjit=False):
     """Run TLC on workdir/module.tla with the given cfg text.  Returns TlcResult."""
     cfg_name = cfg_name or (module + ".cfg")
     with open(os.path.join(workdir, cfg_name), "w") as f:
         f.write(cfg_text)
     meta = tempfile.mkdtemp(prefix="meta_", dir=workdir)
-    cmd = ["java", "-Xmx" + heap, "-Xss16m", "-XX:+UseParallelGC",
-           "-XX:ParallelGCThreads=%d" % gcthreads,
+    # many single-worker JVMs run side by side: serial GC and few JIT threads avoid contention
+    # (measured: C1-only 4.7 s vs 12.4 s for 14 concurrent short runs; C2 pays off on long runs)
+    dflt = "-XX:+UseSerialGC " + ("-XX:TieredStopAtLevel=1" if fastjit else "-XX:CICompilerCount=2")
+    if workers > 1:
+        dflt = "-XX:+UseParallelGC -XX:ParallelGCThreads=4"
+    jvm = os.environ.get("SELFIES_VERIF_JVM", dflt).split()
+    cmd = ["java", "-Xmx" + heap, "-Xss16m"] + jvm + [
            "-DTLA-Library=" + SPEC_DIR, "-cp", TLA_CP, "tlc2.TLC",
            "-workers", str(workers), "-metadir", meta, "-noGenerateSpecTE",
            "-config", cfg_name]
